@@ -204,7 +204,10 @@ def history_shard(binpath, seed, sh):
     res = common.Result()
     # "same_document_while_valid": the very same layout (and keys, and links) is verified while it is still valid - and
     # succeeds - and again once its expiry has passed
-    first_kinds = ["same_document_while_valid", "bad_signature", "expired_long_ago", "missing_link", "success", "unparseable_link"]
+    # "fraction:.f": the expiry carries a fraction of a second and is verified 0.15 s after that instant - well before the next
+    # whole second (an expiry is the instant it denotes, not that instant rounded to the precision of some writer)
+    first_kinds = ["same_document_while_valid", "bad_signature", "expired_long_ago", "missing_link", "success", "unparseable_link",
+                   "fraction:.5", "fraction:.75", "fraction:.500000001"]
     reqs, plans = [], []
     now = datetime.datetime.now(UTC)
     for i, fk in enumerate(first_kinds):
@@ -213,20 +216,22 @@ def history_shard(binpath, seed, sh):
         # second verification: expires shortly after generation, verified only after that instant has passed
         T = (now + datetime.timedelta(seconds=(9 if fk == "same_document_while_valid" else 4 + i))).replace(microsecond=0)
         level = rng.choice(["top", "sub"])
+        frac = fk.split(":")[1] if fk.startswith("fraction:") else ""
+        ttext = scen.iso(T)[:-1] + frac + "Z"
         if level == "top":
-            b = pipeline.make_node(rng, W, 0, ["ed0"], expires=scen.iso(T))
+            b = pipeline.make_node(rng, W, 0, ["ed0"], expires=ttext)
         else:
             b = pipeline.make_node(rng, W, 1, ["ed0"], nsteps=2, delegate_prob=1.0)
-            b["steps"][0]["evidence"][0]["node"]["layout"]["expires"] = scen.iso(T)
+            b["steps"][0]["evidence"][0]["node"]["layout"]["expires"] = ttext
         if fk == "same_document_while_valid":
             a = b
         else:
             pipeline.collect_requests(a, reqs)
         pipeline.collect_requests(b, reqs)
-        plans.append((fk, a, b, T, level))
+        plans.append((fk, a, b, T, level, frac, ttext))
     wires = scen.sign_all(binpath, reqs, nproc=1)
     cases = []
-    for fk, a, b, T, level in plans:
+    for fk, a, b, T, level, frac, ttext in plans:
         fa = pipeline.tree_files(W, a, wires)
         la = copy.deepcopy(wires[a["req"]])
         if fk == "bad_signature":
@@ -238,18 +243,24 @@ def history_shard(binpath, seed, sh):
         cases.append(scen.verify_case(la, [[W.kid("ed0"), W.pub("ed0")]], fa,
                                       meta={"level": "top", "text": la["signed"]["expires"], "instant_ns": "0", "notation_class": "Z", "frac": False,
                                             "style": "T_Z", "delta_s": 0, "history": "first:" + fk}))
-        exp_ns = int(T.timestamp()) * 10 ** 9
+        exp_ns = int(T.timestamp()) * 10 ** 9 + (int(round(float("0" + frac) * 1e9)) if frac else 0)
+        # the wire document carries the expiry as written by its author (the signer's answer holds the library's own rendering)
+        target = b if level == "top" else b["steps"][0]["evidence"][0]["node"]
+        if frac:
+            w = copy.deepcopy(wires[target["req"]])
+            w["signed"]["expires"] = ttext
+            wires[target["req"]] = w
         c = scen.verify_case(wires[b["req"]], [[W.kid("ed0"), W.pub("ed0")]], pipeline.tree_files(W, b, wires),
-                             meta={"level": level, "text": scen.iso(T), "instant_ns": str(exp_ns), "notation_class": "Z", "frac": False,
+                             meta={"level": level, "text": ttext, "instant_ns": str(exp_ns), "notation_class": "Z", "frac": bool(frac),
                                    "style": "T_Z", "delta_s": 0, "history": "after:" + fk})
-        c["not_before_ns"] = str(exp_ns + 300_000_000)
+        c["not_before_ns"] = str(exp_ns + (150_000_000 if frac else 300_000_000))
         cases.append(c)
     obs = common.run_batch(binpath, cases)      # one process, in order
     for c, o in zip(cases, obs):
         m = c["meta"]
         if m["history"].startswith("first:"):
             if not scen.harness_failed(o):
-                want_ok = m["history"] in ("first:success", "first:same_document_while_valid")
+                want_ok = m["history"] in ("first:success", "first:same_document_while_valid") or m["history"].startswith("first:fraction:")
                 got_ok = o["runs"][0]["v"] == "ok"
                 res.classes[f"history_first:{'ok' if got_ok else 'err'}"] += 1
                 if want_ok != got_ok:
@@ -339,7 +350,7 @@ def main(ctx):
     res.extras["exhaustive_subspaces"] = [f"{len(OFFSETS)} offset notations x {{-1h,+1h,-40s,+40s}} x {{top-level, delegated}}"]
     res.extras["limit"] = ("verification time is the real clock; 'all verification times' is covered by sweeping the "
                            "expiry against it (the comparison is symmetric in the two instants)")
-    req = ["sub_layout_without_steps:expired", "sub_layout_without_steps:unexpired_ok", "concurrent:expired",
+    req = ["history:after:fraction:.5:expired", "history:after:fraction:.75:expired", "sub_layout_without_steps:expired", "sub_layout_without_steps:unexpired_ok", "concurrent:expired",
            "concurrent:other_call_started_before_expiry_and_still_running", "top:expired", "top:unexpired_ok", "sub:expired", "sub:unexpired_ok", "notation:offset:expired",
            "notation:offset:unexpired_ok", "notation:zero-offset:expired", "notation:Z:expired", "notation:Z:unexpired_ok",
            "fractional:expired", "fractional:unexpired_ok", "history:after:bad_signature:expired", "history:after:success:expired",
